@@ -148,6 +148,31 @@ def run(ctx):
                 files.append(rng.choice([render_fasta, render_fasta, render_clustal, render_msf])(rng, rws) if len(part) >= 1 else "")
             alts.append(Case(recs, t, fmt=fmt, infiles=files, tag="%d files" % len(files)))
         groups.append((ref, alts))
+    # more than 50 records where only late records carry gap characters (the aligned/unaligned decision must see every record)
+    for i in range(3 if ctx.quick else 25):
+        kind = rng.choice(["dna", "protein"])
+        nseq = rng.choice([51, 57, 80, 120])
+        recs = gen.family(rng, kind, nseq, rng.choice([20, 50]), sub=0.1, indel=0.05, spice=False)
+        recs = [("q%03d" % k, s) for k, (_, s) in enumerate(recs)]
+        t = 5
+        fmt = rng.choice(["fasta", "clu"])
+        ref = Case(recs, t, fmt=fmt, tag="plain fasta")
+        alts = []
+        for rep in range(2):
+            late = list(recs)
+            for k in rng.sample(range(50, nseq), rng.randint(1, min(5, nseq - 50))):
+                n_, s_ = late[k]
+                pos = sorted(rng.randint(0, len(s_)) for _ in range(rng.randint(1, 6)))
+                out_, prev = [], 0
+                for q in pos:
+                    out_.append(s_[prev:q]); out_.append("-"); prev = q
+                out_.append(s_[prev:])
+                late[k] = (n_, "".join(out_))
+            txt = gen.fasta_text(late, width=rng.choice([60, 80]))
+            alts.append(Case(recs, t, fmt=fmt, intext=txt, tag="gaps only after record 50"))
+            k = rng.randint(50, nseq - 1)
+            alts.append(Case(recs, t, fmt=fmt, infiles=[gen.fasta_text(recs[:k]), txt.split(">" + late[k][0] + "\n")[0] and ">" + late[k][0] + "\n" + txt.split(">" + late[k][0] + "\n")[1]], tag="2 files, gaps late"))
+        groups.append((ref, alts))
     sysrun.run_cases(kvh, [c for ref, alts in groups for c in [ref] + alts])
     known_witness(ctx, kvh)
     fails = []
